@@ -17,7 +17,7 @@ type evWorld struct {
 	w      *World
 	ev     gen.Event
 	token  gen.Ref
-	notifs []string // EventStart/EventStop seen by the producer
+	notifs []string            // EventStart/EventStop seen by the producer
 	got    map[string][]string // consumer -> publications handled (HandleEvent)
 	ends   map[string][]string // consumer -> exit/down notifications
 }
